@@ -246,6 +246,15 @@ def c10(ctx):
            dict(steps=n, maxsend=3, maxh=4, srv="SrvC10", send="SendC10", sm=True, cut=False, renumber=False)]
     ctx.notes["bounds"] = "all outbound histories of length %d over Send/SendRaw/SendIQ of stanzas and of <r/>,<a/>, interleaved with server acks h in 0..4 and one inbound stanza kind, SM on" % n
     session_check(ctx, gens, mcs, nvar=200 if q else 2000, nburst=0, extra_args=["-faults", "300" if q else "3000"])
+    if not ctx.replay:
+        # retransmission CONCURRENT with senders: 2-8 goroutines send while the server answers <a h='0'/> several times
+        # (nothing acknowledged: each answer makes the client re-send what it holds); at the end every accepted stanza
+        # must be held exactly once, numbered increasingly (TraceSendPath, clauses of C10)
+        cs = [{"sm": True, "g": 2 + k % 7, "m": 5 + (k * 7) % 40, "seed": 1000 + k, "acks": 1 + k % 6, "ws": k % 4 == 3, "logger": k % 5 == 0}
+              for k in range(40 if q else 400)]
+        out, nev, _ = vlib.run_driver(ctx, "c08", scen=cs, timeout=1200)
+        ctx.verdicts += vlib.tlc_trace(ctx, "TraceSendPath", "Trace_SendPath.cfg", out, nev, timeout=600)
+        ctx.notes["bounds"] += "; concurrent retransmission: %d stress scenarios (2-8 senders x 5-44 sends, 1-6 unacknowledging answers during the run, TCP and WebSocket)" % len(cs)
 
 
 @check("C12")
